@@ -1,16 +1,17 @@
 #!/bin/bash
-# usage: regress_seeded.sh [<seeded-id>...]     (default: all of /verif/seeded)
+# usage: [P=3] [JOBS=4] regress_seeded.sh [<seeded-id>...]     (default: all of /verif/seeded)
 # For every seeded change: scratch worktree of /repo HEAD, apply seeded/<id>/patch.diff, run the quick check
 # of the first property listed in meta.json "caught_by" against it (VERIF_REPO), remove the worktree.
-# Runs from a snapshot of the committed /verif.  Prints CAUGHT / MISSED per change.
+# Runs from a snapshot of the committed /verif, P changes at a time.  Prints CAUGHT / MISSED per change.
 SNAP=/tmp/vsnap_r$$
 git -C /verif worktree prune; git -C /verif worktree add -q --detach $SNAP HEAD || exit 2
 ids="$@"; [ -z "$ids" ] && ids=$(ls /verif/seeded)
-for id in $ids; do
+one() {
+  id=$1; SNAP=$2
   d=/verif/seeded/$id
   prop=$(python3 -c "import json;m=json.load(open('$d/meta.json'));print((m['caught_by'] or [m['breaks_property']])[0])")
   wt=/tmp/wt/R_$id
-  git -C /repo worktree add -q --detach $wt HEAD || continue
+  git -C /repo worktree add -q --detach $wt HEAD 2>/dev/null || { echo "NOWORKTREE $id"; return; }
   if (cd $wt && git apply $d/patch.diff 2>/dev/null || git apply -C1 $d/patch.diff 2>/dev/null); then
     out=$(cd $SNAP && VERIF_REPO=$wt ./check $prop --tier quick --jobs ${JOBS:-4} 2>&1); rc=$?
     if [ $rc = 1 ] && echo "$out" | grep -q "^VIOLATION property=$prop"; then echo "CAUGHT  $id by $prop"; else echo "MISSED  $id by $prop (rc=$rc)"; fi
@@ -18,6 +19,8 @@ for id in $ids; do
     echo "NOAPPLY $id"
   fi
   git -C /repo worktree remove --force $wt; rm -rf /tmp/vw_tmp_wt_R_$id
-done
+}
+export -f one
+echo $ids | tr ' ' '\n' | xargs -P ${P:-3} -I{} bash -c "one {} $SNAP"
 git -C /verif worktree remove --force $SNAP
 echo REGRESS-DONE
